@@ -33,9 +33,12 @@ def _rename_locals(fn) -> None:
         if isinstance(n, (ast.Global, ast.Nonlocal)):
             declared |= set(n.names)
     loc = stored - params - declared - {"_"}
+    own = {id(a) for a in fn.args.args + fn.args.kwonlyargs + fn.args.posonlyargs}
     for n in ast.walk(fn):
         if isinstance(n, ast.Name) and n.id in loc:
             n.id = n.id + "_r"
+        elif isinstance(n, ast.arg) and id(n) not in own and n.arg in loc:
+            n.arg = n.arg + "_r"  # a lambda / nested-function parameter that shadows a local: renamed along with it
 
 
 def _outer_functions(node):
